@@ -172,8 +172,14 @@ def r15_2_stale(ctx, prog):
                 a = C.expr_of(pa, new[0][2])
                 rto_i = pa.index_of(r"RttCalcuator::rto$")
                 reset_i = pa.index_of(r"RttCalcuator::reset$")
+                # the estimator that is reset and read is the one stored in the client (RttCalcuator is Copy: a local copy
+                # would take the reset and leave the stored state stale)
+                stored = ("client", "rtt", "0", "rtt")
+                recv = [tuple(x[3]) if x[3] else None for x in pa.calls if re.search(r"RttCalcuator::(reset|rto)$", x[1])]
                 if not (isinstance(a[0], tuple) and a[0][0] == "RttCalcuator::rto"):
                     ok, why = False, "schedule not built from rtt.rto(): %s" % show(a[0])
+                elif any(r is None or r != stored for r in recv):
+                    ok, why = False, "reset()/rto() applied to %s, not to the stored estimator client.rtt.0.rtt" % [r for r in recv if r != stored][:2]
                 elif reset and reset_i > rto_i:
                     ok, why = False, "rto() read before the reset"
                 elif "rm" not in repr(_names(prog, new[0][2][1])) and False:
@@ -197,6 +203,37 @@ def r15_2_stale(ctx, prog):
 
 def _names(prog, x):
     return x
+
+
+def r15_5_config(ctx, prog):
+    ctx.rule("R15.5", "the configured estimator parameters reach the estimator unchanged: From<TransportReliability> builds the "
+                      "handler with RttCalcuator::new(config.rto, config.granularity), rm = config.rm, rc = config.rc and no "
+                      "request time; Reliable(timeout) keeps the timeout")
+    fn = "<stun_agent::client::StunRttCalcuator as std::convert::From<stun_agent::TransportReliability>>::from"
+    b = prog.body(fn, required=False)
+    if b is None:
+        cands = [x for x in prog.bodies.values() if re.search(r"StunRttCalcuator as std::convert::From<.*TransportReliability>>::from$", x.path)]
+        b = cands[0] if cands else None
+    if b is None:
+        ctx.anchor_missing("R15.5", "From<TransportReliability> for StunRttCalcuator")
+        return
+    paths, info = C.explore_fn(prog, b.path, "x", [r"\{closure"])
+    ctx.fn(b)
+    seen = set()
+    for pa in paths:
+        r = C.expr_of(pa, pa.ret)
+        kind = r[0].split("::")[-1] if isinstance(r, tuple) else "?"
+        seen.add(kind)
+        if kind == "Unreliable":
+            h = r[1]
+            ok = isinstance(h, tuple) and h[0] == "RttHandler" and len(h) == 5 \
+                and h[1] == ("RttCalcuator::new", "top:reliability.0.rto", "top:reliability.0.granularity") \
+                and h[2] == "top:reliability.0.rm" and h[3] == "top:reliability.0.rc" and h[4] == "Option::None"
+            extra = [n for n in pa.call_names() if n != "RttCalcuator::new"]
+            ctx.ob("R15.5", "unreliable", ok and not extra, "handler = %s; other calls %s" % (show(h)[:200], extra), info["where"], replay=None if ok else pa.describe())
+        elif kind == "Reliable":
+            ctx.ob("R15.5", "reliable", r[1] == "top:reliability.0" and not pa.calls, "Reliable(%s)" % show(r[1])[:60], info["where"])
+    ctx.floor("R15.5", "transport kinds", len(seen & {"Reliable", "Unreliable"}), 2)
 
 
 def r15_4_who_may_write(ctx, prog):
@@ -244,3 +281,4 @@ def check(ctx, env):
     r15_1_karn(ctx, prog)
     r15_2_stale(ctx, prog)
     r15_4_who_may_write(ctx, prog)
+    r15_5_config(ctx, prog)
